@@ -67,7 +67,7 @@ def gen(tier, rng):
         for what in ("mul", "div"):
             for g in range(ngroups):
                 grp += 1
-                w = [1, 3, 4, 5, 7, 8, 9, 13, 16, 17, 31, 33][g % 12]
+                w = rz.pick(g, 128, [1, 3, 4, 5, 7, 8, 9, 13, 16, 17, 31, 33])
                 h = max(1, npix // w)
                 data = []
                 for i in range(w * h):
@@ -89,7 +89,7 @@ def gen(tier, rng):
         for what in ("mul", "div"):
             for g in range(ngroups):
                 grp += 1
-                w = [1, 3, 4, 5, 7, 8, 9, 16, 17][g % 9]
+                w = rz.pick(g, 129, [1, 3, 4, 5, 7, 8, 9, 16, 17])
                 h = max(1, npix // w)
                 data = []
                 for i in range(w * h):
